@@ -133,13 +133,16 @@ def seq(t: Term) -> list[tuple[str, Term]]:
 # --------------------------------------------------------------------------- dotted names
 
 
-def dotted(t: Term) -> "list[tuple[str, Term]] | None":
+def dotted(t: Term, trailing_dot: bool = False) -> "list[tuple[str, Term]] | None":
     """Dotted-name normal form: components joined by '.', each ("item", term) or ("parts", location) (all path components).
 
-    None when the term is not recognisably a '.'-joined name."""
+    None when the term is not recognisably a '.'-joined name. `trailing_dot`: one '.' at the end is ignored ('pkg.' names the
+    same module prefix as 'pkg')."""
     toks = _tokens(t)
     if toks is None:
         return None
+    if trailing_dot and toks and toks[-1][0] == "sep":
+        toks = toks[:-1]
     # tokens alternate between pieces and separators; a piece may be empty only through an explicit empty constant
     out: list[tuple[str, Term]] = []
     expect_piece = True
